@@ -12,7 +12,7 @@
    about SHA-256 or JSON. *)
 From Coq Require Import List NArith Bool Permutation.
 Import ListNotations.
-From Oras Require Import Base.Prelude Generated.GC07 Model.GraphMem Model.GraphStore Model.IndexLTS Model.Links Proofs.GraphMem Proofs.Links Proofs.GraphStore Proofs.IndexLTS.
+From Oras Require Import Base.Prelude Generated.GC07 Model.GraphMem Model.GraphStore Model.IndexLTS Model.StoreLTS Model.IndexAllLTS Model.Links Proofs.GraphMem Proofs.StoreLTS Proofs.IndexAllLTS Proofs.Links Proofs.GraphStore Proofs.IndexLTS.
 
 (* The invariants written in the comments of graph.Memory hold after every history of
    Index / Remove / IndexAll / fresh-graph operations, with content appearing in and
@@ -130,6 +130,43 @@ Theorem C07_reload_exact :
                         (exists r, In r roots /\ areach content sok r p) /\ In n (content p).
 Proof. exact load_exact. Qed.
 Print Assumptions C07_reload_exact.
+
+(* IndexAll as it really runs (Model/IndexAllLTS.v): one task per descriptor, started
+   concurrently, each doing "commit in the tracker" and "index + start a task per successor"
+   as two atomic actions.  EVERY schedule that runs to completion indexes exactly the nodes
+   reachable from the root through fetchable nodes and keeps the invariant ... *)
+Theorem C07_indexall_every_schedule :
+  forall (content : node -> list node) (sok : node -> bool) g r trace st',
+    Inv content g ->
+    ia_run content sok (ia_init g r) trace = Some st' -> ia_done st' = true ->
+    Inv content (ia_g st') /\
+    forall x, In x (g_nodes (ia_g st')) <-> In x (g_nodes g) \/ areach content sok r x.
+Proof. exact ia_complete. Qed.
+Print Assumptions C07_indexall_every_schedule.
+
+(* ... so it answers every Predecessors query like the sequential work-list [index_all] that
+   the reload theorems are stated about *)
+Theorem C07_indexall_schedule_irrelevant :
+  forall (content : node -> list node) (sok : node -> bool) g r trace st' fuel g',
+    Inv content g ->
+    ia_run content sok (ia_init g r) trace = Some st' -> ia_done st' = true ->
+    index_all_root content sok fuel g r = (g', true) ->
+    (forall x, In x (g_nodes (ia_g st')) <-> In x (g_nodes g')) /\
+    forall n, Permutation (predecessors (ia_g st') n) (predecessors g' n).
+Proof. exact ia_same_as_sequential. Qed.
+Print Assumptions C07_indexall_schedule_irrelevant.
+
+(* the two actions of a task and their order are those of graph.Memory.IndexAll as re-read on this run *)
+Theorem C07_indexall_task_order_src : indexall_task_order = true.
+Proof. exact indexall_task_order_true. Qed.
+Print Assumptions C07_indexall_task_order_src.
+
+Example C07_indexall_schedule_example :
+  exists st', ia_run (ctab ia_ct) (fun _ => true) (ia_init empty_graph 3%N)
+                [EvCommit 0; EvIndex 0; EvCommit 1; EvCommit 0; EvIndex 1; EvIndex 0;
+                 EvCommit 1; EvCommit 0; EvIndex 0] = Some st' /\
+              ia_done st' = true /\ predecessors (ia_g st') 1%N = [2; 3]%N.
+Proof. exact ia_example. Qed.
 
 (* Reopen: if the storage holds exactly the live graph's nodes and every live node
    with successors is listed as a root (OCI: every stored manifest is tagged by its
@@ -280,6 +317,77 @@ Theorem C07_store_step_terminates :
 Proof. exact store_step_terminates. Qed.
 Print Assumptions C07_store_step_terminates.
 
+(* ---- AutoSaveIndex = false and SaveIndex ([arun]: the store model wrapped with the flag) ----
+   Whatever the flag and wherever SaveIndex is called, Predecessors is exact after every
+   history in which no layout is (re)opened from an index.json that was not saved
+   ([snd r = true]: also no fuel exhaustion). *)
+Theorem C07_store_autosave_exact :
+  forall (content : node -> list node) (isman : node -> bool) (rank : node -> nat),
+    (forall p, content p <> [] -> isman p = true) ->
+    (forall p c, In c (content p) -> (rank c < rank p)%nat) ->
+    forall fuel ops n,
+      let r := arun content isman fuel empty_astore ops in
+      snd r = true ->
+      NoDup (predecessors (o_graph (a_s (fst r))) n) /\
+      forall p, In p (predecessors (o_graph (a_s (fst r))) n) <->
+                In p (o_blobs (a_s (fst r))) /\ In n (content p).
+Proof. exact autosave_history_exact. Qed.
+Print Assumptions C07_store_autosave_exact.
+
+(* the side condition is needed (and is the documented duty of the caller): AutoSaveIndex off,
+   push, reopen without SaveIndex: the pushed manifest is on disk and not indexed *)
+Theorem C07_store_unsaved_reopen_refuted :
+  exists content isman fuel ops n p,
+    (forall q, content q <> [] -> isman q = true) /\
+    let r := arun content isman fuel empty_astore ops in
+    snd r = false /\ In p (o_blobs (a_s (fst r))) /\ In n (content p) /\
+    ~ In p (predecessors (o_graph (a_s (fst r))) n).
+Proof. exact autosave_unsaved_reopen_refuted. Qed.
+Print Assumptions C07_store_unsaved_reopen_refuted.
+
+Example C07_store_saved_reopen_example :
+  let r := arun (ctab pf_ct) pf_isman 50 empty_astore
+             [ASetAuto false; AOp (PPush 0%N); AOp (PPush 2%N); ASaveIndex; AOp PReopen] in
+  snd r = true /\ predecessors (o_graph (a_s (fst r))) 0%N = [2%N].
+Proof. exact autosave_saved_reopen_example. Qed.
+
+(* ... and whole histories: with fuel above the size of a finite universe closed under
+   [content] that contains every node the operations mention, no step of any history
+   (without PForeign, whose guard may refuse) runs out of fuel. *)
+Theorem C07_store_history_terminates :
+  forall content isman U,
+    (forall u, In u U -> forall c, In c (content u) -> In c U) ->
+    forall fuel ops,
+      (1 + pot content U [] < fuel)%nat -> Forall (op_in U) ops ->
+      snd (orun true true true content isman fuel empty_store ops) = true.
+Proof. exact store_history_terminates. Qed.
+Print Assumptions C07_store_history_terminates.
+
+(* ---- refinement of the specification, with tag names ----
+   [spec_preds content blobs n] computes the answer from the stored set alone (the stored
+   nodes whose successors contain n).  After every history of the full operation language --
+   Push, Tag / Untag BY NAME (the model keeps the reference -> node map; a name that moves is
+   taken from the node that had it), Delete, GC, reopen, foreign index, AutoSaveIndex on/off,
+   SaveIndex -- the store's Predecessors is a permutation of it. *)
+Theorem C07_store_refines_spec :
+  forall (content : node -> list node) (isman : node -> bool) (rank : node -> nat),
+    (forall p, content p <> [] -> isman p = true) ->
+    (forall p c, In c (content p) -> (rank c < rank p)%nat) ->
+    forall fuel ops n,
+      let r := nrun content isman fuel ops in
+      snd r = true ->
+      Permutation (predecessors (o_graph (a_s (fst r))) n)
+                  (spec_preds content (o_blobs (a_s (fst r))) n).
+Proof. exact names_refines_spec. Qed.
+Print Assumptions C07_store_refines_spec.
+
+Example C07_store_names_example :
+  let r := nrun (ctab pf_ct) pf_isman 50
+             [NOp (AOp (PPush 0%N)); NOp (AOp (PPush 2%N)); NOp (AOp (PPush 3%N));
+              NTag 2%N 7%N; NTag 3%N 7%N; NOp (AOp (PGC []))] in
+  snd r = true /\ o_tagged (a_s (fst r)) = [3%N] /\ predecessors (o_graph (a_s (fst r))) 0%N = [2%N].
+Proof. exact names_example. Qed.
+
 (* Scope: [ops] are operations that COMPLETE.  An operation aborted by the environment
    half-way is not covered, and the statement is false there: a Delete whose unlink fails
    after Untag / graph.Remove / saveIndex (EPERM, open handle on NTFS) leaves the blob stored
@@ -375,6 +483,73 @@ Example C07_save_index_atomic_example :
   exists s', lrun true (linit [] [ActAdd 1%N; ActAdd 2%N]) [0; 0; 1; 1; 1; 0]%nat = Some s' /\
              all_done s' = true /\ l_disk s' = [2; 1]%N.
 Proof. exact save_index_atomic_example. Qed.
+
+(* ---- the whole store under concurrency (Model/StoreLTS.v) ----
+   Push = storage.Push, graph.Index, tag by digest, saveIndex; Tag = Exists, tag by digest, tag
+   by name, saveIndex; Untag = untag, saveIndex: each an atomic step; Delete / GC / reopen /
+   foreign index run exclusively (Store.sync.Lock).  For EVERY interleaving of these steps
+   (any number of operations, after any earlier history [ops0]), once every operation has
+   returned, Predecessors(n) is exactly the stored nodes referencing n ... *)
+Theorem C07_concurrent_quiescent_exact :
+  forall (content : node -> list node) (isman : node -> bool) (rank : node -> nat),
+    (forall p, content p <> [] -> isman p = true) ->
+    (forall p c, In c (content p) -> (rank c < rank p)%nat) ->
+    forall fuel ops0 cops trace st' n,
+      let s0 := fst (orun true true true content isman fuel empty_store ops0) in
+      crun content isman fuel (cinit s0 cops) trace = Some st' -> call_done st' = true ->
+      NoDup (predecessors (o_graph (c_s st')) n) /\
+      forall p, In p (predecessors (o_graph (c_s st')) n) <->
+                In p (o_blobs (c_s st')) /\ In n (content p).
+Proof. exact concurrent_quiescent_exact. Qed.
+Print Assumptions C07_concurrent_quiescent_exact.
+
+(* ... and a reopen of the layout at that point changes no answer.  (This discharges, for
+   Push/Tag/Untag, the hypothesis "every live manifest has its resolver entry" that
+   C07_concurrent_save_then_reload assumes.) *)
+Theorem C07_concurrent_quiescent_reopen :
+  forall (content : node -> list node) (isman : node -> bool) (rank : node -> nat),
+    (forall p, content p <> [] -> isman p = true) ->
+    (forall p c, In c (content p) -> (rank c < rank p)%nat) ->
+    forall fuel ops0 cops trace st' s'',
+      let s0 := fst (orun true true true content isman fuel empty_store ops0) in
+      crun content isman fuel (cinit s0 cops) trace = Some st' -> call_done st' = true ->
+      ostep true true true content isman fuel (c_s st') PReopen = (s'', true) ->
+      o_blobs s'' = o_blobs (c_s st') /\
+      forall n, Permutation (predecessors (o_graph s'') n) (predecessors (o_graph (c_s st')) n).
+Proof. exact concurrent_quiescent_reopen. Qed.
+Print Assumptions C07_concurrent_quiescent_reopen.
+
+(* At EVERY reachable state of every interleaving (operations still in flight): no extra and
+   no duplicate answer; a stored node referencing n can be missing only while its own Push is
+   between storage.Push and graph.Index ("does not necessarily correspond to any consistent
+   snapshot" in the doc comment is exactly this window and nothing more). *)
+Theorem C07_concurrent_anytime :
+  forall (content : node -> list node) (isman : node -> bool) (rank : node -> nat),
+    (forall p, content p <> [] -> isman p = true) ->
+    (forall p c, In c (content p) -> (rank c < rank p)%nat) ->
+    forall fuel ops0 cops trace st' n,
+      let s0 := fst (orun true true true content isman fuel empty_store ops0) in
+      crun content isman fuel (cinit s0 cops) trace = Some st' ->
+      NoDup (predecessors (o_graph (c_s st')) n) /\
+      (forall p, In p (predecessors (o_graph (c_s st')) n) ->
+                 In p (o_blobs (c_s st')) /\ In n (content p)) /\
+      (forall p, In p (o_blobs (c_s st')) -> In n (content p) ->
+                 In p (predecessors (o_graph (c_s st')) n) \/
+                 existsb (p_push1 p) (c_threads st') = true).
+Proof. exact concurrent_anytime. Qed.
+Print Assumptions C07_concurrent_anytime.
+
+(* the step order of Model/StoreLTS.v is the call order of Store.Push / tag / Tag / Untag in
+   content/oci/oci.go as re-read on this run *)
+Theorem C07_oci_step_order_src : oci_step_order = true.
+Proof. exact oci_step_order_true. Qed.
+Print Assumptions C07_oci_step_order_src.
+
+Example C07_concurrent_example :
+  exists st', crun (ctab lts_ct) lts_isman 50 (cinit empty_store lts_ops) lts_trace = Some st' /\
+              call_done st' = true /\ o_blobs (c_s st') = [2; 0]%N /\
+              predecessors (o_graph (c_s st')) 0%N = [2%N].
+Proof. exact lts_example. Qed.
 
 (* IndexAll / loadIndex / gcIndex terminate: for every finite universe closed under
    [content] and containing the roots (any shape, cycles included) some fuel completes
